@@ -1006,8 +1006,9 @@ Definition holds_C08_ltv (cfg : config) (st : state) (j : Z) : bool :=
           end
       end
   end.
-(* a NEW cross-pool position: BorrowAsset checks the loan against the bridged transit coins with
-   the transit asset's Ltv (the bridged quantity itself is the value of Ltv * collateral) *)
+(* a NEW cross-pool position: besides the rule above, BorrowAsset checks the loan against the
+   bridged transit coins with the transit asset's Ltv (the bridged quantity itself is the value of
+   Ltv * collateral) *)
 Definition holds_C08_ltv_brd (cfg : config) (st : state) (j : Z) : bool :=
   match zget (borrows st) j with
   | None => false
@@ -1028,7 +1029,7 @@ Definition holds_C08_ltv_new (cfg : config) (st : state) (j : Z) : bool :=
   | Some b =>
       match zget (c_pairs cfg) (b_pair b) with
       | None => false
-      | Some pr => if pr_inter pr then holds_C08_ltv_brd cfg st j else holds_C08_ltv cfg st j
+      | Some pr => holds_C08_ltv cfg st j && (if pr_inter pr then holds_C08_ltv_brd cfg st j else true)
       end
   end.
 (* finding C08-F1 (repaired): a position that hangs on a lend position of ANOTHER asset than the
